@@ -20,6 +20,7 @@
 import RotoV.Lemmas.Tarjan
 import RotoV.Lemmas.TarjanCtx
 import RotoV.Lemmas.TarjanNoPanic
+import RotoV.Lemmas.TarjanLir
 
 namespace RotoV.C14
 open RotoV.Tarjan
@@ -404,5 +405,137 @@ example : (codegen ⟨[(0, [2]), (1, []), (2, [1])], fun n => if n = 2 then .fun
 /-- a wrong order is a loud failure in the model (`ice!("Constant not defined")`) -/
 example : (codegen ⟨[(0, [2]), (1, []), (2, [1])], fun n => if n = 2 then .func else .const⟩ [0, 2, 1]).map (·.log)
     = .error .panic := by decide
+
+/-! ## T5 — edge completeness: a collected graph that contains every real dependency rejects every real context use
+
+`t` is the dependency structure a program really has (the harness knows it for
+the programs it generates: which item mentions which, in whatever syntactic
+position), `i` the reference graph the type checker collected for it.  The
+driver decides `edgesSubset t i` on every generated program; under it, whatever
+`t` says about context use carries over to what `compile` does on `i`. -/
+
+/-- the executable comparison is sound -/
+theorem edgesSubset_sound (t i : Graph) (h : edgesSubset t i = true) :
+    ∀ u v, Edge t u v → Edge i u v :=
+  RotoV.Tarjan.edgesSubset_sound t i h
+
+/-- If the collected graph `i` has every edge of the real structure `t` (same
+kinds, every real constant is a key), then a constant that really reads a
+context variable — directly, as a method receiver, through constants, through
+any chain of functions — makes `compile` reject, with nothing evaluated. -/
+theorem complete_edges_reject_context (t i : Graph) (hsub : edgesSubset t i = true)
+    (hkind : ∀ x, t.kind x = i.kind x) (hkeys : ∀ c, c ∈ t.keys → c ∈ i.keys)
+    (hc : ∃ c, c ∈ t.keys ∧ t.kind c = .const ∧ UsesCtx t c) :
+    ∃ o, compile i = .ok (.rejected o []) := by
+  obtain ⟨c, hck, hcc, hu⟩ := hc
+  have hedge := RotoV.Tarjan.edgesSubset_sound t i hsub
+  have hu' : UsesCtx i c := hu.mono hedge (fun x hx => by rw [← hkind x]; exact hx)
+  obtain ⟨comps, ht⟩ := tarjan_total i
+  cases hs : selfEdge i i.edges with
+  | some c' => exact ⟨.recursive c', by simp [compile, findCompilationOrder, hs, bind, Except.bind]⟩
+  | none =>
+    cases hm : mixedComponent i comps with
+    | some c' => exact ⟨.recursive c', by simp [compile, findCompilationOrder, hs, ht, hm, bind, Except.bind]⟩
+    | none =>
+      obtain ⟨c', h'⟩ := ((context_rejected i comps ht hs hm).1).1
+        ⟨c, hkeys c hck, by rw [← hkind c]; exact hcc, hu'⟩
+      exact ⟨_, h'⟩
+
+/-- likewise for cycles: a real cycle through a constant is a cycle of the
+collected graph, hence rejected (given the certificate for `i`'s components) -/
+theorem complete_edges_reject_cycle (t i : Graph) (hsub : edgesSubset t i = true)
+    (hkind : ∀ x, t.kind x = i.kind x) (comps : List (List Nat)) (ht : tarjan i = .ok comps)
+    (hv : validOrder i comps = true) (c d : Nat) (hk : t.kind c = .const)
+    (e : Edge t c d) (r : Reach t d c) :
+    ∃ c', i.kind c' = .const ∧ compile i = .ok (.rejected (.recursive c') []) := by
+  have hedge := RotoV.Tarjan.edgesSubset_sound t i hsub
+  exact cycle_rejected_of_valid i comps ht hv c d (by rw [← hkind c]; exact hk) (hedge c d e) (r.mono hedge)
+
+/-- the method-receiver shape: constant 0 calls f1, f1 reads context 2 only as
+`ctxvar.method()`.  With the edge the program is rejected; a collected graph
+without it is *not* a superset of the real structure (the comparison fails) and
+would be compiled. -/
+example : compile ⟨[(0, [1]), (1, [2])], fun n => if n = 0 then .const else if n = 2 then .ctx else .func⟩
+    = .ok (.rejected (.usesContext 0) []) := by decide
+example : edgesSubset ⟨[(0, [1]), (1, [2])], fun _ => .func⟩ ⟨[(0, [1]), (1, [])], fun _ => .func⟩ = false := by decide
+example : edgesMissing ⟨[(0, [1]), (1, [2])], fun _ => .func⟩ ⟨[(0, [1]), (1, [])], fun _ => .func⟩ = [(1, 2)] := by decide
+
+/-! ## T6 — the item loop over the lowered list: when an initialiser runs, everything it can call is defined
+
+`cgLir` is the code generator's loop over `Lir.functions` as emitted (generated
+clone / drop / eq functions included).  The harness feeds it the list of every
+real compilation (hook `take_lir`): it must succeed, and its run order must be
+the observed initialiser log. -/
+
+/-- If the loop completes, then every constant's initialiser ran exactly once,
+in list order, and at the moment constant `c`'s initialiser ran (`D` = bodies
+defined and finalized, `S` = constants already evaluated): the constant itself
+and every function it can reach through calls / function addresses — script
+functions and generated clone / drop / eq functions alike — had a finalized
+body; every script constant read by it or by anything it can reach had already
+been evaluated, earlier in the run order; and in the end every defined body only
+refers to defined bodies. -/
+theorem init_runs_closed (items : List LItem) (st : LState) (h : cgLir items = .ok st) :
+    st.runs.map Prod.fst = constPositions 0 items ∧
+    (∀ c D S, (c, D, S) ∈ st.runs →
+      c ∈ D ∧ ∀ x, LReach items c x →
+        x ∈ D ∧ ∀ k, LReads items x k → k ∈ S ∧ Before k c (st.runs.map Prod.fst)) ∧
+    (∀ p, p ∈ st.defined → ∀ q, LEdge items p q → q ∈ st.defined) := by
+  unfold cgLir at h
+  simp only [bind, Except.bind] at h
+  cases hl : lLoop items 0 items LState.new with
+  | error e => rw [hl] at h; cases h
+  | ok st1 =>
+    rw [hl] at h
+    obtain ⟨inv1, hr1⟩ := lLoop_inv items 0 LState.new st1 (by simp) (LInv.new items) hl
+    obtain ⟨inv2, _, hp2, _, hr2⟩ := lFinalize_inv inv1 h
+    refine ⟨by rw [hr2, hr1]; simp [LState.new], ?_, ?_⟩
+    · intro c D S hm
+      obtain ⟨hc, hD, hS, hB⟩ := inv2.runs c D S hm
+      refine ⟨hc, fun x r => ?_⟩
+      have hx : x ∈ D := r.closed hD hc
+      exact ⟨hx, fun k hk => ⟨hS x hx k hk, hB k (hS x hx k hk)⟩⟩
+    · intro p hp q e
+      exact inv2.closed p hp (by rw [hp2]; simp) q e
+
+/-- helpers first: `[clone, drop, K, f]` where `K`'s initialiser calls `clone` -/
+example : (cgLir [⟨false, none, [], []⟩, ⟨false, none, [], []⟩, ⟨true, some 1, [some 0], []⟩,
+    ⟨false, none, [some 0], [some 2]⟩]).map (·.runs) = .ok [(2, [2, 1, 0], [])] := by decide
+/-- the clone function after the script items: `[drop, K, f, clone]` — the loop
+stops at `K` ("can't resolve symbol") -/
+example : cgLir [⟨false, none, [], []⟩, ⟨true, some 0, [some 3], []⟩, ⟨false, none, [some 3], [some 1]⟩,
+    ⟨false, none, [], []⟩] = .error .panic := by decide
+/-- a function ordered before the constant that needs it refers to a later helper -/
+example : cgLir [⟨false, none, [], []⟩, ⟨false, none, [some 3], []⟩, ⟨true, some 0, [some 1], []⟩,
+    ⟨false, none, [], []⟩] = .error .panic := by decide
+/-- the drop function of the constant's type must have a body as well -/
+example : cgLir [⟨true, some 1, [], []⟩, ⟨false, none, [], []⟩] = .error .panic := by decide
+/-- without a constant in between, order does not matter (one finalize at the end) -/
+example : (cgLir [⟨false, none, [some 1], []⟩, ⟨false, none, [], []⟩]).map (·.runs) = .ok [] := by decide
+
+/-- The same condition in closed form (`lirReady`, decided positionally without
+running anything: every symbol is declared; a body only reads *earlier
+constants*; for every constant, its drop function and every symbol any body up
+to its position refers to sit at or before that position; at the end everything
+referred to is in the list): it implies that the loop completes — and hence, by
+`init_runs_closed`, that whenever an initialiser runs everything it can call is
+defined.  (The converse is checked on every real item list by the harness:
+`lirReady` and `cgLir` must agree.) -/
+theorem cgLir_ok_of_ready (items : List LItem) (h : lirReady items = true) :
+    ∃ st, cgLir items = .ok st ∧
+      st.runs.map Prod.fst = constPositions 0 items ∧
+      (∀ c D S, (c, D, S) ∈ st.runs →
+        c ∈ D ∧ ∀ x, LReach items c x →
+          x ∈ D ∧ ∀ k, LReads items x k → k ∈ S ∧ Before k c (st.runs.map Prod.fst)) := by
+  obtain ⟨st, hst⟩ := cgLir_ok_of_ready' items h
+  obtain ⟨h1, h2, _⟩ := init_runs_closed items st hst
+  exact ⟨st, hst, h1, h2⟩
+
+example : lirReady [⟨false, none, [], []⟩, ⟨false, none, [], []⟩, ⟨true, some 1, [some 0], []⟩,
+    ⟨false, none, [some 0], [some 2]⟩] = true := by decide
+example : lirReady [⟨false, none, [], []⟩, ⟨true, some 0, [some 3], []⟩, ⟨false, none, [some 3], [some 1]⟩,
+    ⟨false, none, [], []⟩] = false := by decide
+example : lirReady [⟨false, none, [], []⟩, ⟨false, none, [some 3], []⟩, ⟨true, some 0, [some 1], []⟩,
+    ⟨false, none, [], []⟩] = false := by decide
 
 end RotoV.C14
